@@ -103,7 +103,7 @@ on `stream.Merge`, i.e. on the same defect the ownership rule found (F2).
     lockset.go             E-LS  must-held lockset with call-site entry contexts
     chanops.go bg.go       E-CB  channel-operation classifier; background-goroutine context/cancellability rules
     own.go own2.go         E-OWN stream ownership (transfer / forward / close / lend; per-field typestate with helper entries)
-    mirror.go              E-SH  AST mirror/duality and lockstep cross-checks
+    mirror.go variants.go  E-SH  AST mirror/duality and lockstep cross-checks; dual pairs merged under a flag
     rules_cNN.go rules_round3.go rules_pull.go …   per-property rule instances (§4 is generated from them)
     controls.go thorough.go      thorough tier: alternative build configurations + in-memory controls/seeds
 /verif/check               wrapper: (re)builds the analyser from vendored sources, runs it on /repo's working tree
@@ -186,6 +186,23 @@ thorough ≈ 10–20 s per property.
   (`chans.SendContext`); borrowed streams (an unexported helper that only reads);
   function literals that are only called in place; dual field pairs and mirrored
   argument positions of helpers (`newNode(value, prev, next)`).
+* **Round-4 additions.** *Nil-result-sensitive summaries* (`nilExits`: a branch on
+  `err != nil` of a summarised helper keeps the states of the returns that can
+  produce that outcome; `ctx.Err()` inside a `<-ctx.Done()` arm is non-nil).
+  *Locksets along call chains* (`deepLocks`) and *lock wrappers*: a function
+  literal or bound method handed to `locked(f)` starts with what the wrapper
+  holds around the call of its parameter; deep views descend into literals handed
+  to helpers that only call them. *Variables through methods* (`paramCell`,
+  `cellHelpers`): a field of a local struct is still one variable inside the
+  methods that only ever receive that struct's address. *Goroutine launchers*
+  (`goLauncher`, `selfAccountedGoroutines`): `out.spawn(func(){…})` and helper
+  methods that start an accounted goroutine join the background-goroutine
+  analysis; *channel identity by make site*. *Ownership form "held"* (streams in
+  a field of a local helper object whose one method closes element i).
+  *Dual pairs by role with flag specialisation* (`variants.go`): two sibling
+  implementations merged into one type with a constant boolean field are analysed
+  once per flag value - dead blocks are hidden from instrs/deep views/PF, the AST
+  mirror compares the two specialised declarations.
 * **Effects** (`effects.go`). May a function write through a slice/map argument?
   (stores, map updates, copy/append/clear/delete, sort and `slices.*` writers,
   module callees, closures; fix-point).
@@ -261,11 +278,11 @@ any installed toolchain; generic bodies are analysed uninstantiated.
 **Known false-alarm surface.** The rules are written against idioms; §8.3
 describes how they were hardened against behaviour-preserving refactorings, but
 a sufficiently different (still correct) rewrite of an anchored function can
-make a rule report `violated`/`undecided`/`vacuous`. One kept refactoring is
-still not handled: `C09-r5` moves the state shared by `stream.Merge`'s workers
-(inputs, sender, context, counters) into a struct with a `forward(i)` method;
-the ownership, context-origin and worker-shape rules do not follow streams and
-contexts through fields of a heap struct shared by goroutines. The mirror and
+make a rule report `violated`/`undecided`/`vacuous`: in round 4 (fresh
+refactorings after three rounds of hardening) 44 of 80 still alarmed at first, so
+the honest expectation for an unseen restructuring of an anchored function is
+"about even". All 240 kept refactorings are quiet today (`C09-r5`, open after
+round 3, is decided by the *held* ownership form). The mirror and
 lockstep rules would fire on an asymmetric-but-equivalent rewrite of one twin.
 Refactorings that rename exported API or change a struct's field *types* are
 outside the rename normalisation.
@@ -385,7 +402,7 @@ change, `tools/regress.sh`):
   field discipline with real helper entry states), result-sensitive summaries,
   flag jump-threading, function-literal parameter resolution, lent streams,
   local-struct fields as variables, the floor margin. After hardening: 75 of
-  76 quiet (the exception is `C09-r5`, §6).
+  76 quiet (`C09-r5` stayed open until round 4).
 * Round 4 (fresh refactorings requested after all of the above, as a measure of
   how far the hardening generalises): see the table at the end of this section.
 
